@@ -246,8 +246,10 @@ class Gen:
             return self.gen_for(depth)
         if c < 0.80 and depth > 0:
             return self.gen_defn(depth)
-        if c < 0.86 and depth > 0:
+        if c < 0.83 and depth > 0:
             return self.gen_closures_in_loop(depth)
+        if c < 0.86 and depth > 0:
+            return self.gen_closure_in_nested_scopes(depth)
         if c < 0.91 and depth > 0:
             return self.gen_try(depth)
         if c < 0.94:
@@ -409,6 +411,56 @@ class Gen:
             out.append(["defn", tname, B(t1), ["log", ["length", A(901, 902, 903, 904, 905, t1)]], [name] + req])
             out.append(["log", [tname, r.choice([0, 3, 128])]])
             out.append(["log", ["+", 1, [tname, 4]]])
+        return out
+
+    def gen_closure_in_nested_scopes(self, depth):
+        """A closure created two to four block scopes below the function body, capturing locals of several of those scopes; more locals are
+        defined afterwards (their registers must not alias the captured ones) and only then is the closure called."""
+        r = self.rng
+        if self.no_capture:
+            return [["log", self.gen_int(depth - 1)]]
+        self.features.add("closure-in-nested-scopes")
+        name = "fn%d" % self.counter
+        self.counter += 1
+        d = self.fresh(False)
+        caps = []
+        levels = r.choice([2, 2, 3, 4])
+        self.push()
+        # innermost expression: the closure over everything captured so far
+        wrappers = []
+        for lv in range(levels):
+            v = self.fresh(False)
+            init = self.gen_int(0)
+            caps.append(v)
+            self.declare(v, "int")
+            wrappers.append((r.choice(["let", "do-def", "if-let", "when-let"]), v, init))
+        mutable = r.random() < 0.5
+        if mutable:
+            mv = self.fresh(False)
+            body_fn = ["do", ["var", mv, ["+"] + caps], ["fn", B(d), ["+=", mv, d], ["+", mv] + caps]]
+        else:
+            body_fn = ["fn", B(d), ["+", d] + caps]
+        expr = body_fn
+        for kind, v, init in reversed(wrappers):
+            if kind == "let":
+                expr = ["let", B(v, init), expr]
+            elif kind == "do-def":
+                expr = ["do", ["def", v, init], expr]
+            elif kind == "if-let":
+                expr = ["if", ["<", -1000, init], ["let", B(v, init), expr], ["fn", B(d), -1]]
+            else:
+                expr = ["when", True, ["let", B(v, init), expr]]
+        self.pop()
+        out = [["def", name, expr]]
+        # locals defined after the closure exists
+        for _ in range(r.choice([1, 2, 4])):
+            o = self.fresh(False)
+            out.append(["def", o, self.gen_int(0)])
+            self.declare(o, "int")
+            out.append(["log", o])
+        self.declare(name, "fn", (1, "plain"))
+        out.append(["log", [name, r.choice([0, 1, 7])]])
+        out.append(["log", [name, 2]])
         return out
 
     def gen_closures_in_loop(self, depth):
